@@ -445,3 +445,6 @@ def parts(tier):
         HypPart('strip-tif', strip_cases(), check_strip, 1500, 20000),
         HypPart('write-many-records', many_record_cases(), check_many_records, 4, 48),
     ]
+
+
+RULE += '  Added after the seeding rounds: part write-many-records (> 65536 physical records, record number trailer wraps); checksums of the last logical record must equal those of a fresh writer (history independence; the value is not modelled); handles positioned anywhere.'
